@@ -37,7 +37,7 @@ def run(prop, workers=6):
     for name in sorted(os.listdir(root)):
         d = os.path.join(root, name)
         patch = os.path.join(d, "patch.diff")
-        if not os.path.isfile(patch):
+        if not os.path.isfile(patch) or name.startswith("limit-"):
             continue
         if name.startswith("equiv-"):
             jobs.append((name, patch, 0))
